@@ -69,9 +69,11 @@ func (scp *Isolated) Kill() {
 
 // Stop stop the scope context without error
 func (scp *Isolated) Stop() {
+	scp.errorsMU.Lock()
 	if !scp.IsDone() {
 		close(scp.done)
 	}
+	scp.errorsMU.Unlock()
 }
 
 // Err return cumulative error if the scope context contains any error
